@@ -45,21 +45,23 @@ class CaseTimeout(BaseException):
 
 
 class time_limit:
-    """Real-time alarm around one case. Raises CaseTimeout (a BaseException)."""
+    """Alarm around one case; raises CaseTimeout (a BaseException). cpu=True counts the CPU time of this process
+    (user + system), so a loaded machine cannot turn a slow case into a 'timeout'."""
 
-    def __init__(self, seconds):
+    def __init__(self, seconds, cpu=False):
         self.seconds = seconds
+        self.which, self.sig = (signal.ITIMER_PROF, signal.SIGPROF) if cpu else (signal.ITIMER_REAL, signal.SIGALRM)
 
     def _handler(self, signum, frame):
         raise CaseTimeout()
 
     def __enter__(self):
-        self.old = signal.signal(signal.SIGALRM, self._handler)
-        signal.setitimer(signal.ITIMER_REAL, self.seconds)
+        self.old = signal.signal(self.sig, self._handler)
+        signal.setitimer(self.which, self.seconds)
 
     def __exit__(self, *a):
-        signal.setitimer(signal.ITIMER_REAL, 0)
-        signal.signal(signal.SIGALRM, self.old)
+        signal.setitimer(self.which, 0)
+        signal.signal(self.sig, self.old)
         return False
 
 
